@@ -43,6 +43,24 @@ Theorem backref_exact : forall xs attrs y h, In h (backrefs xs attrs y) <->
 Proof. exact backrefs_spec. Qed.
 Print Assumptions backref_exact.
 
+(* ... and as the accessor's loop is written, with attribute PATHS some of which cannot be followed on some candidates
+   (None: "source.owner" of an exchange whose source is empty): a candidate is reported exactly when one of the paths that
+   can be followed contains y — a path that fails does not hide the ones after it — and at most once *)
+Theorem backref_paths_exact : forall cs y h, In h (backrefs_loop cs y) <->
+  exists c, In c cs /\ fst c = h /\ exists vs, In (Some vs) (snd c) /\ In y vs.
+Proof. exact backrefs_loop_spec. Qed.
+Print Assumptions backref_paths_exact.
+Theorem backref_paths_once : forall cs y, NoDup (map fst cs) -> NoDup (backrefs_loop cs y).
+Proof. exact backrefs_loop_nodup. Qed.
+Print Assumptions backref_paths_once.
+Example backref_paths_hyps_sat : NoDup (map fst [(1, [None; Some [42]]); (2, [Some [7]; None])]) /\ backrefs_loop [(1, [None; Some [42]]); (2, [Some [7]; None])] 42 = [1].
+Proof. split; [repeat (apply NoDup_cons; [cbn; intuition discriminate|]); apply NoDup_nil|reflexivity]. Qed.
+(* stopping at the first path that cannot be followed loses the candidate *)
+Theorem backref_break_refuted :
+  backrefs_loop [(1, [None; Some [42]])] 42 = [1] /\ backrefs_loop_break [(1, [None; Some [42]])] 42 = [].
+Proof. exact backrefs_break_refuted. Qed.
+Print Assumptions backref_break_refuted.
+
 (* 4. list filters: selecting a value and excluding it split ANY list into complementary order-preserving parts
       (a member on which the attribute cannot be read counts as not having the value) *)
 Theorem filter_partition : forall key v l,
